@@ -244,7 +244,15 @@ def run_case(ctx, desc):
         data = {k: with_coord(v, False) for k, v in data.items()} if isinstance(data, dict) else with_coord(data, False)
     chunked = {d for d, c in chunks.items() if len(c) > 1}
     core_chunked = bool(chunked & set(core_dims))
-    refusable = core_chunked and bool(involved & {"inner", "outer"})
+    # refusable: the data is chunked along the dimension of an operated axis *and that same axis* moves from or to an
+    # inner/outer position (judged per axis: a chunked X does not excuse refusing an unchunked Z -> outer)
+    if fam == "D" or not involved:
+        refusable = False
+    else:
+        cm_ = gen.layout_coords(desc["layout"])
+        refusable = any(
+            cm_[a][desc["pos"][a]] in chunked and {desc["pos"][a], desc["to"][a]} & {"inner", "outer"} for a in desc["opax"]
+        )
     if fam == "C" and desc["dask_mode"] == "allowed-map_overlap" and involved & {"inner", "outer"}:
         # an explicit map_overlap=True with an inner/outer position is refused today even when the core dim is in
         # one chunk; the statement does not say whether it should be, so a refusal there is not judged
